@@ -73,6 +73,21 @@ def prelude(rng, case):
             'namespaces': [n],
             'settings': [{'environment': {'FOO': 'bar baz'}}]
             if rng.random() < 0.5 else [{'script': 'true'}]}})
+    if rng.random() < 0.3:
+        # two settings put and one of them cleared within one iteration
+        # (one DB batch): the other must still be there after the restart
+        n = rng.choice(gt['names'] + ['root'])
+        pt = [rng.choice(['*', '1', '2'])]
+        at = rng.randint(1, 6)
+        keep = {'environment': {'KEEP': 'kept value'}}
+        drop = rng.choice([{'script': 'true'},
+                           {'environment': {'DROP': 'x'}}])
+        for mode, settings in (('put_broadcast', [keep]),
+                               ('put_broadcast', [drop]),
+                               ('clear_broadcast', [drop])):
+            sc.append({'at': at, 'cmd': 'broadcast', 'args': {
+                'mode': mode, 'cycle_points': list(pt), 'namespaces': [n],
+                'settings': [dict(x) for x in settings]}})
     return sc
 
 
@@ -257,7 +272,15 @@ def run_case(ctx, i, rng):
             continue
         jobs = results[-1].get('world_jobs') or {}
         ctx.count('differential_compared')
-        if set(jobs) != set(base_jobs):
+        missing_i = {j.rsplit('/', 1)[0] for j in set(base_jobs) - set(jobs)}
+        from vlib.e1.c43 import known_c01
+        if set(jobs) != set(base_jobs) and not (set(jobs) - set(base_jobs)) \
+                and missing_i and known_c01(case, missing_i, results):
+            # the instances the interrupted run missed are explained by the
+            # C01 known findings (e.g. an output message that arrived after
+            # its task had left the pool): judged under C01
+            ctx.count('differential_missing_explained_by_C01_known_finding')
+        elif set(jobs) != set(base_jobs):
             ctx.violation(
                 'C19:different-jobs-after-restart',
                 f'interrupted run launched {sorted(set(jobs)-set(base_jobs))[:4]} '
